@@ -68,6 +68,21 @@ func mhGen(c *hx.Ctx) {
 			}
 		}
 	}
+	// directed at the cache keys of the model: for every integer type, a program that reads the small-integer
+	// cache (step 1 and zero of the element type) after a history that has already filled those keys
+	for ti, ty := range mhSmallTypes {
+		for ei, engine := range []string{"interp", "vm"} {
+			if !c.Thorough() && (ti+ei)%2 == 1 {
+				continue
+			}
+			src := fmt.Sprintf("access(all) fun main(): Int { var acc = 0\nfor i in InclusiveRange<%s>(1, 3) { acc = acc + Int(i) }\nif InclusiveRange<%s>(0, 9, step: 2).contains(4) { acc = acc + 1 }\nreturn acc }", ty.name, ty.name)
+			p := meterx.Prog{Kind: "script", Src: src}
+			op := append([]string{"meterhist", engine}, p.Fields()...)
+			op = append(op, p.Fields()...)
+			c.Emit(op...)
+			mhPlanned = append(mhPlanned, mhPlan{engine, p})
+		}
+	}
 	for i := 0; i < c.N; i++ {
 		r := c.Rng.Fork()
 		engine := []string{"interp", "vm"}[i%2]
